@@ -159,7 +159,9 @@ case("sroa kept: the object escapes", {"h": _P, "m": "from .h import P\ndef f(r,
      has=["P(n)", "p.left"], lacks=["_r_p_left"])
 case("sroa kept: the class hooks attribute assignment", {"h": _P + "    def __setattr__(self, k, v):\n        object.__setattr__(self, k, v)\n", "m": "from .h import P\ndef f(r, n):\n    p = P(n)\n    while p.left > 0:\n        p.data += r(p.left)\n    return bytes(p.data)\n"}, "m", "f",
      has=["P(n)", "p.left"], lacks=["_r_p_left"])
-case("sroa kept: a field is a property of the class", {"h": _P + "    @property\n    def size(self):\n        return len(self.data)\n", "m": "from .h import P\ndef f(r, n):\n    p = P(n)\n    while p.left > 0:\n        p.data += r(p.left)\n    return bytes(p.data)\n"}, "m", "f",
+case("sroa fires: the class also has a pure read-only property", {"h": _P + "    @property\n    def size(self):\n        return len(self.data)\n", "m": "from .h import P\ndef f(r, n):\n    p = P(n)\n    while p.size < n:\n        p.data += r(n - p.size)\n    return bytes(p.data)\n"}, "m", "f",
+     has=["_r_p_data", "len(_r_p_data)"], lacks=["P(n)"])
+case("sroa kept: a property with a setter", {"h": _P + "    @property\n    def size(self):\n        return len(self.data)\n    @size.setter\n    def size(self, v):\n        self.left = v\n", "m": "from .h import P\ndef f(r, n):\n    p = P(n)\n    while p.left > 0:\n        p.data += r(p.left)\n    return bytes(p.data)\n"}, "m", "f",
      has=["P(n)", "p.left"], lacks=["_r_p_left"])
 case("sroa kept: the local is bound twice", {"h": _P, "m": "from .h import P\ndef f(r, n, q):\n    p = P(n)\n    if q:\n        p = q\n    while p.left > 0:\n        p.data += r(p.left)\n    return bytes(p.data)\n"}, "m", "f",
      has=["P(n)", "p.left"], lacks=["_r_p_left"])
